@@ -214,6 +214,12 @@ def c04step (d : D) (op : String) (impl : String) : D × String :=
             ++ (if totalCloses m2 > totalCloses d.m then ["closer-ran"] else []))
         | none => ans d "rejected:persisted" "na"
       | none => ans d "rejected:persisted-unknown-snapshot" "na"
+  | ["stress", _g, bs] =>
+      -- readers opened and closed inside the step net to nothing in the model; the batches are applied in order
+      if impl.startsWith "released" then ans d "ok" "bad:reader-on-released-snapshot" ["stress"]
+      else if impl == "ok" then
+        ans { d with abs := (bs.splitOn ";").foldl (fun a b => applyBatch a (b.splitOn ",")) d.abs } "ok" "ok" ["stress"]
+      else ans d "ok" "ok"
   | ["batch", ops] => batchStep ops
   | ["batchf", ops] => batchStep ops
   | ["open", slot, sname, _epoch] =>
